@@ -78,8 +78,13 @@ func TestC18Builder(t *testing.T) {
 			}
 		}
 		concurrent := rapid.Bool().Draw(t, "concurrent")
-		f.logf("builder sizes=%v concurrent=%v", sizes, concurrent)
+
 		b := skiplist.NewBuilder()
+		itemBytes := []int{0, 8, 13}[rapid.IntRange(0, 2).Draw(t, "itemsize")]
+		if itemBytes > 0 {
+			b.SetItemSizeFunc(func(unsafe.Pointer) int { return itemBytes })
+		}
+		f.logf("builder sizes=%v concurrent=%v itemsize=%d", sizes, concurrent, itemBytes)
 		segs := make([]*skiplist.Segment, nseg)
 		var want []int
 		next := 0
